@@ -17,6 +17,7 @@ package shrex_getter
 //@ func (*Getter).executeRequest
 //@   property C06
 //@   requires $Idle
+//@   havoc $Idle $Filled $Verified
 //@   param req: requires $Idle
 //@   param req: ensures $result == nil ==> $Filled
 //@   param req: ensures $result != nil ==> $Idle
